@@ -64,10 +64,13 @@ def make_map(rng, t):
         if n[0] == "np":
             cands.append((n[1], "named-param-name"))
         if n[0] == "lam" and n[3]:
-            cands.append((T.ident(n[3]), "lambda-var"))
+            # (a namespaced variable is written ns.x: as a key it is the identifier x in ns)
+            *vns, vlast = n[3].split(".")
+            vid = ("id", vlast, tuple(vns))
+            cands.append((vid, "lambda-var"))
             if n[4] is not None:
                 for m in T.walk(n[4]):
-                    if m[0] == "attr" and path_root(m) == T.ident(n[3]):
+                    if m[0] == "attr" and path_root(m) == vid:
                         cands.append((m, "lambda-bound-path"))
     cands.append((T.ident("not_in_term"), "non-member"))
     cands.append((T.path("nope", "never"), "non-member"))
